@@ -485,7 +485,7 @@ class Sym:
     # -- environment updates while walking a path
     def declare(self, v):
         init = v.get("init")
-        if "tid" in v and not v.get("ref") and not v.get("ptr"):
+        if ("tid" in v or v.get("array")) and not v.get("ref") and not v.get("ptr"):
             # an object of class type has identity: it is not copy-propagated
             self.env[v["n"]] = "L:" + v["n"]
             return
